@@ -277,7 +277,7 @@ type StepResult struct {
 	ValSetErr               error
 	Truncated               bool // validator set would become empty (environment assumption)
 	Updates                 []abci.ValidatorUpdate
-	Delivered               []*ethtypes.Transaction
+	Delivered               []*sim.SysTx
 	Reqs                    goattypes.LockingRequests
 	Votes                   []abci.VoteInfo
 	Panic                   any
@@ -296,6 +296,13 @@ func bigFrom(s string) *big.Int {
 
 // BuildReqs turns the block's ops into execution-layer requests (ids are assigned
 // consecutively like the locking contract does).
+func (w *World) valAddr(i int) common.Address {
+	if i >= len(w.Keys) {
+		return common.BytesToAddress([]byte{0xde, 0xad, byte(i)}) // a validator nobody created
+	}
+	return w.Keys[i].EthAddr()
+}
+
 func (w *World) BuildReqs(b *LBlock, nextID *uint64, height int64) goattypes.LockingRequests {
 	var r goattypes.LockingRequests
 	r.Gas = []*goattypes.GasRequest{goattypes.NewGasRequest(uint64(height), bigFrom(b.Gas))}
@@ -305,13 +312,13 @@ func (w *World) BuildReqs(b *LBlock, nextID *uint64, height int64) goattypes.Loc
 			k := w.Keys[o.Val]
 			r.Creates = append(r.Creates, &goattypes.CreateRequest{Validator: k.EthAddr(), Pubkey: k.Uncompressed()})
 		case "lock":
-			r.Locks = append(r.Locks, &goattypes.LockRequest{Validator: w.Keys[o.Val].EthAddr(), Token: w.Tokens[o.Token], Amount: bigFrom(o.Amt)})
+			r.Locks = append(r.Locks, &goattypes.LockRequest{Validator: w.valAddr(o.Val), Token: w.Tokens[o.Token], Amount: bigFrom(o.Amt)})
 		case "unlock":
-			r.Unlocks = append(r.Unlocks, &goattypes.UnlockRequest{Id: *nextID, Validator: w.Keys[o.Val].EthAddr(),
+			r.Unlocks = append(r.Unlocks, &goattypes.UnlockRequest{Id: *nextID, Validator: w.valAddr(o.Val),
 				Recipient: common.BytesToAddress([]byte{0xee, byte(o.Val)}), Token: w.Tokens[o.Token], Amount: bigFrom(o.Amt)})
 			*nextID++
 		case "claim":
-			r.Claims = append(r.Claims, &goattypes.ClaimRequest{Id: *nextID, Validator: w.Keys[o.Val].EthAddr(), Recipient: common.BytesToAddress([]byte{0xcc, byte(o.Val)})})
+			r.Claims = append(r.Claims, &goattypes.ClaimRequest{Id: *nextID, Validator: w.valAddr(o.Val), Recipient: common.BytesToAddress([]byte{0xcc, byte(o.Val)})})
 			*nextID++
 		case "grant":
 			r.Grants = append(r.Grants, &goattypes.GrantRequest{Amount: bigFrom(o.Amt)})
@@ -427,8 +434,10 @@ func (w *World) Step(st *LState, b *LBlock, wantMid bool) (*LState, *StepResult)
 		}
 		tctx, write := bctx.CacheContext()
 		var err error
-		res.Delivered, err = k.DequeueLockingModuleTx(tctx)
+		var dq []*ethtypes.Transaction
+		dq, err = k.DequeueLockingModuleTx(tctx)
 		if err == nil {
+			res.Delivered = sim.DecodeSysTxs(dq)
 			err = k.ProcessLockingRequest(tctx, res.Reqs)
 		}
 		if err != nil {
